@@ -189,7 +189,8 @@ def clause_c(ctx, fx, U):
             continue
         starts = [t for (_, t) in good]
         sinks = [bb for (f, bb, _n, l) in U.obj_sinks if f is fn and l is n]
-        elem = [e for (f, e, inner, l) in U.elem_sinks if f is fn and l is n]
+        sinks += [e["bb"] for (f, e, inner, l) in U.elem_sinks if f is fn and l is n and e.get("kind") == "push"]
+        elem = [e for (f, e, inner, l) in U.elem_sinks if f is fn and l is n and e.get("kind") != "push"]
         heads = set(h for (_, h) in cfg.back_edges(fn))
         if sinks:
             r = cfg.reachable(fn, starts, removed_blocks=sinks)
@@ -321,6 +322,43 @@ def clause_d(ctx, fx):
         ctx.finding("C01.d", issue, "holder-key-provenance", "the holder key confirmed in `cnf` is not (on every path) the one passed to this call: a credential issued without a key can carry an earlier holder's cnf")
 
 
+def _serde_string_of(v):
+    """X when v is `serde_json::Value::String(X).to_string()` (serde's own JSON encoding of the string X), else None"""
+    v = peel(v)
+    if v.kind == "call" and v.d["term"].get("name") == "to_string" and (v.d["term"].get("self_ty") or "") == "serde_json::Value" and v.kids:
+        a = peel(v.kids[0])
+        if a.kind == "agg" and a.d["agg"].get("adt") == "serde_json::Value" and a.d["agg"].get("variant") == "String" and a.kids:
+            return a.kids[0]
+    return None
+
+
+def name_encoding_ok(fx, name):
+    """the member-name argument of the disclosure template is serde's JSON encoding of the unmodified key: `Value::String(key).to_string()`, in
+    line or through a crate-local one-purpose helper, with key = the (payload of the) Option<String>/Option<&str> name parameter, only copied"""
+    n = peel(name)
+    x = _serde_string_of(n)
+    if x is None and n.kind == "call" and n.d["term"].get("resolved_local") and n.d["term"].get("resolved") in fx.fns and n.kids:
+        E = fx.fns[n.d["term"]["resolved"]]
+        inner = _serde_string_of(vals(E).return_value())
+        if inner is None:
+            return False, "the helper %s is not Value::String(arg).to_string(): %s" % (E.name.split("::")[-1], vstr(vals(E).return_value(), 4))
+        p = peel(inner)
+        if not (p.kind == "param" and p.fn is E and p.d["idx"] - 1 < len(n.kids)):
+            return False, "the name is transformed before JSON encoding: %s" % vstr(inner, 4)
+        x = n.kids[p.d["idx"] - 1]
+    if x is None:
+        return False, vstr(n, 4)
+    k = peel(x)
+    g = 0
+    while k.kind in ("variant", "field") and k.kids and g < 6:
+        k = peel(k.kids[0])
+        g += 1
+    ty = (k.d.get("ty") or "") if k.kind == "param" else ""
+    if k.kind == "param" and ty.lstrip("&").startswith("std::option::Option<") and ("std::string::String" in ty or "str" in ty):
+        return True, ""
+    return False, "the name is transformed before JSON encoding: %s" % vstr(x, 4)
+
+
 def clause_e(ctx, fx, config="default"):
     """disclosure text = ["<salt>", <JSON(name)>, <JSON(value)>] / ["<salt>", <JSON(value)>]: the literal pieces of both format!
     templates, the name encoded by serde from the UNMODIFIED key, the value being the serialisation of the value parameter,
@@ -351,26 +389,7 @@ def clause_e(ctx, fx, config="default"):
         args = [x for (k, x) in pcs if k == "arg"]
         value = args[-1]
         if nargs == 3:
-            name = peel(args[1])
-            okn = False
-            why = vstr(name, 4)
-            if name.kind == "call" and name.d["term"].get("resolved_local") and name.d["term"].get("resolved") in fx.fns and name.kids:
-                E = fx.fns[name.d["term"]["resolved"]]
-                rv = vals(E).return_value()
-                r0 = rv
-                # to_string(Value::String(String::from(param))) : serde's own encoding of the unmodified name
-                if r0.kind == "call" and r0.d["term"].get("name") == "to_string" and (r0.d["term"].get("self_ty") or "") == "serde_json::Value" and r0.kids:
-                    a = peel(r0.kids[0])
-                    if a.kind == "agg" and a.d["agg"].get("adt") == "serde_json::Value" and a.d["agg"].get("variant") == "String" and a.kids:
-                        inner = peel(a.kids[0])
-                        okn = inner.kind == "param" and inner.fn is E
-                        if not okn:
-                            why = "the name is transformed before JSON encoding: %s" % vstr(a.kids[0], 4)
-                key_arg = peel(name.kids[0])
-                kk = key_arg
-                while kk.kind in ("variant", "field") and kk.kids:
-                    kk = peel(kk.kids[0])
-                okn = okn and kk.kind == "param" and (kk.d.get("ty") or "").lstrip("&") == "std::option::Option<std::string::String>"
+            okn, why = name_encoding_ok(fx, args[1])
             if okn:
                 ctx.ok("C01.e", D, "name-encoding", "the member name is JSON-encoded by serde (Value::String(name).to_string()) from the unmodified key")
             else:
